@@ -12,21 +12,21 @@ CLAIMED = {
          "Every result, listing, entry and stream byte of every generated history is compared by TLC with the total abstract model; the MC_Tree graph makes (state x operation) coverage systematic."),
  "C02": ("model_checking", "5 C02", "TLC trace validation: strict and permissive reopen dumps of the un-flushed bytes after every operation must equal the CfbTree state; forked continuation on the reopened file; design level: InvOpen of MC_Phys (every image of the write-path model is accepted by the open-path model CfbOpen) and InvThrough of MC_Fault (the file decoded from the actual writes holds exactly the in-memory tables); fidelity: Trace_Open",
          "Crash points = every operation boundary of every history, both modes, both versions, including directory/FAT/MiniFAT (thorough: DIFAT) growth."),
- "C03": ("model_checking", "5 C03", "WF(img) rules R1-R8 written in TLA+ (CfbImage) evaluated by TLC on an independent raw decode of every produced image; the same rules are invariants of MC_Phys (CfbPhys, the TLA+ transcription of the allocator / directory / write paths, exhaustive at tiny geometry) and Trace_Phys binds CfbPhys to the code by predicting every table of every recorded image; case-analysis coverage: the classes of CfbPhys's write / resize case analysis reached by real executions (Trace_Phys) against those of the exhaustive tiny-geometry graph (MC_Phys)",
+ "C03": ("model_checking", "5 C03", "WF(img) rules R1-R8 written in TLA+ (CfbImage) evaluated by TLC on an independent raw decode of every produced image; the same rules are invariants of MC_Phys (CfbPhys, the TLA+ transcription of the allocator / directory / write paths, exhaustive at tiny geometry) and Trace_Phys binds CfbPhys to the code by predicting every table of every recorded image; case-analysis coverage: the classes of CfbPhys's write / resize case analysis reached by real executions (Trace_Phys) against those of the exhaustive tiny-geometry graph (MC_Phys); images produced through the path-based constructors (a real file, created where an older, longer file lay)",
          "The judge shares no code with the library; it re-derives every chain from fat[]/minifat[] and checks ownership, leaks, chain lengths, tree order, blank entries."),
- "C07": ("model_checking", "5 C07", "TLC trace validation (CfbTree with a handle table) of histories holding handles open across structural mutation; CfbDir design model of slot stability",
+ "C07": ("model_checking", "5 C07", "TLC trace validation (CfbTree with a handle table) of histories holding handles open across structural mutation; CfbDir design model of slot stability; handles obtained through other spellings of the path; foreign files whose empty streams carry a stale start field",
          "Full logical + physical equality after every step means every other stream, all metadata and the tree are exactly as the model predicts."),
  "C08": ("model_checking", "5 C08", "TLC trace validation of shrink/grow/reuse templates: CfbTree.SetLen pads with a zero run, fills are fresh non-zero bytes; design level: MC_Phys with the bytes of every sector in the state (InvData, ZeroExposure; CfbPhys TrackData), exhaustive at tiny geometry; foreign layouts with surplus sectors in a chain",
          "Full parameter grids over boundary lengths for write-shrink-grow, reuse after removal, and migrations."),
- "C09": ("model_checking", "5 C09", "TLC trace validation with name dictionaries: fold, order and validity computed in TLA+ from UTF-16 unit sequences; path spelling normalised by the model",
+ "C09": ("model_checking", "5 C09", "TLC trace validation with name dictionaries: fold, order and validity computed in TLA+ from UTF-16 unit sequences; path spelling normalised by the model; MC_Api (the API layer's normalisation, lookups and validation against the abstract model, exhaustive at tiny geometry); dictionary X: exceptional characters and their full-upper-casing twins with pairwise different lengths (only length decides among them)",
          "Covers ASCII, cased and caseless non-ASCII, supplementary-plane and boundary-length names; exceptional case mappings excluded (no independent source)."),
  "C10": ("model_checking", "5 C10", "TLC trace validation: every refused call must leave the image hash unchanged and the model state untouched; refusals enumerated from the MC_Tree graph; design level: InvNoEffect of MC_Api (CfbApi = the API layer of lib.rs on CfbPhys: every check precedes every effect, also inside the loops of create_storage_all / remove_storage_all; exhaustive at tiny geometry); fidelity: the error kind of every recorded refusal against CfbApi's check order (Trace_Phys); a call refused although the model lets it succeed is held to the same no-effect rule",
          "Refusal x state coverage is measured on the model graph, not hoped for."),
- "C06": ("model_checking", "5 C06", "CfbHandle (TLA+ transcription of the stream cache) model checked against a reference byte vector; MC_Handle transition coverage and random call sequences replayed on real handles and judged by TLC (Trace_Handle) for every max_buffer_size; a handle that outlives its CompoundFile keeps obeying the byte-vector model for everything it answers with Ok",
+ "C06": ("model_checking", "5 C06", "CfbHandle (TLA+ transcription of the stream cache) model checked against a reference byte vector; MC_Handle transition coverage and random call sequences replayed on real handles and judged by TLC (Trace_Handle) for every max_buffer_size; a handle that outlives its CompoundFile keeps obeying the byte-vector model for everything it answers with Ok; transfers through the provided methods of io::Read / Write / Seek (read_exact, read_vectored, take, write_vectored, rewind, seek_relative); max_buffer_size 0; fidelity: backend-read count of every refill (CfbChainIO)",
          "Exhaustive at model geometry for several buffer sizes; real-scale replays under six buffer sizes x two versions with extreme seek arguments."),
  "C12": ("fault_enumeration", "5 C12", "every k-th backend read/seek fails; TLC (Trace_Handle, ro_faults mode) requires Err or the fault-free result and correct bytes after retry; CfbHandle model checked with one injected fault; CfbChainIO: the transfer loops below the buffer with failing / interrupted backend calls; injected errors of varying kinds",
          "Every single fault position of the workloads (pairs in thorough); design-level model covers all interleavings of one fault with the cache protocol."),
- "C13": ("fault_enumeration", "5 C13", "design level: MC_Fault model checks CfbFault (the write paths write by write, memory / file split, a failing write, retry, another operation in between) at tiny geometry, and CfbHandle (FlushDurable) with faults; conformance: every k-th backend write/seek/flush of the workloads fails (every position of the short first-use / growth / removal / two-handle workloads); TLC (Trace_Handle, rw_faults mode) requires the call to report the error, no later panic, Ok flush => the bytes are read back by a fresh handle AND from a reopened copy of the file once every failed call has been retried, the backend's flush is reached, no untouched stream is lost; fidelity: Trace_Writes compares CfbFault's predicted order of table writes with the recorded write calls",
+ "C13": ("fault_enumeration", "5 C13", "design level: MC_Fault model checks CfbFault (the write paths write by write, memory / file split, a failing write, retry, another operation in between) at tiny geometry, and CfbHandle (FlushDurable) with faults; conformance: every k-th backend write/seek/flush of the workloads fails (every position of the short first-use / growth / removal / two-handle workloads); TLC (Trace_Handle, rw_faults mode) requires the call to report the error, no later panic, Ok flush => the bytes are read back by a fresh handle AND from a reopened copy of the file once every failed call has been retried, the backend's flush is reached, no untouched stream is lost; fidelity: Trace_Writes compares CfbFault's predicted order of table writes with the recorded write calls; the error kind of every refusal and the metadata of every slot against CfbApi / CfbPhys where Trace_Phys runs; injected errors of varying kinds",
          "Every single fault position of the workloads (pairs in thorough) with retry of the failed call."),
  "C15": ("model_checking", "5 C15", "TLC trace validation of net-zero cycles (checked on the model) with a NoGrowth assertion on logged file lengths; NoGrowth is an invariant of MC_Phys in cycle mode (CfbPhys at tiny geometry), bound to the code by Trace_Phys",
          "Cycle templates x sizes x mini-stream fill levels at and around sector multiples."),
@@ -40,9 +40,9 @@ CLAIMED = {
          "All layouts of the smallest contents, seeded samples of larger ones: any slot assignment with gaps, any valid red-black shape, any sector and mini-sector placement; lookups under case variants and a mutation history on every image."),
  "C05": ("exploration", "5 C05", "Gen_Corrupt (TLA+) enumerates every field-level corruption of TLC-generated layouts; each damaged image gets every read-only call under catch_unwind, a watchdog and a counting allocator; Trace_Robust (TLA+) states the verdict (no panic, memory bound); plus crash corpus and seeded byte flips; valid files with 50,000-entry directories in degenerate shapes (sibling lists, nested storages) read on a 2 MiB stack",
          "The structured part of 'any byte string' (all single field corruptions x value classes, thorough: sampled pairs) is enumerated from the specification; unstructured bytes are a seeded supplement; termination, panics and memory are observed by monitors."),
- "C11": ("exploration", "5 C11", "Gen_Corrupt (TLA+) corruptions that survive permissive open x mutation scripts, under catch_unwind and a per-case watchdog; Trace_Robust states the verdict; coverage classified by corrupted site",
+ "C11": ("exploration", "5 C11", "Gen_Corrupt (TLA+) corruptions that survive permissive open x mutation scripts, under catch_unwind and a per-case watchdog; Trace_Robust states the verdict; coverage classified by corrupted site; valid files with dot-named objects; mutation steps grow_minis and shrink_behind_cursor",
          "Every single field corruption x scripts covering all mutation steps (thorough: every step singly and sampled ordered pairs, sampled pairs of corruptions)."),
- "C16": ("model_checking", "5 C16", "design level: InvC16 of MC_Phys (CfbOpen = transcription of open_internal and the validators, on every single-value damage of every reachable tiny-geometry image: strict accepts => permissive accepts with the same tables); fidelity: Trace_Open (model verdict vs library verdict on every layout, deviation, corruption); part 1: strict Ok => permissive Ok with the identical dump on every image (Trace_File / Trace_Robust); part 2: Gen_Deviate (TLA+) injects every documented tolerated deviation at every applicable place of TLC-generated layouts, singly and in independent pairs; Trace_File requires permissive = undamaged content and strict = rejected",
+ "C16": ("model_checking", "5 C16", "design level: InvC16 of MC_Phys (CfbOpen = transcription of open_internal and the validators, on every single-value damage of every reachable tiny-geometry image: strict accepts => permissive accepts with the same tables); fidelity: Trace_Open (model verdict vs library verdict on every layout, deviation, corruption); part 1: strict Ok => permissive Ok with the identical dump on every image (Trace_File / Trace_Robust); part 2: Gen_Deviate (TLA+) injects every documented tolerated deviation at every applicable place of TLC-generated layouts, singly and in independent pairs; Trace_File requires permissive = undamaged content and strict = rejected; DIFAT deviations on a layout whose DIFAT ends with a genuine entry 0 (relayout fat_rotate); stream times with the top bit set; path-based strict constructors in the dumps",
          "Deviation x place coverage comes from the specification; expectations are stated in the trace validator, not in the harness."),
 }
 
